@@ -365,7 +365,103 @@ def gen_wiring():
     return ''.join(out)
 
 
-GENERATORS = {'Consts': gen_consts, 'ArgTables': gen_argtables, 'S3Shapes': gen_s3shapes, 'Wiring': gen_wiring}
+
+def _calls_in(stmts):
+    """names of the functions / methods called anywhere in a list of statements"""
+    names = set()
+    for st in stmts:
+        for node in ast.walk(st):
+            if isinstance(node, ast.Call):
+                f = node.func
+                if isinstance(f, ast.Attribute):
+                    names.add(f.attr)
+                elif isinstance(f, ast.Name):
+                    names.add(f.id)
+    return names
+
+
+def _handler_rows(try_node, where, third):
+    """(exception class, records the exception on the transfer, re-raises, <third>) per except clause"""
+    rows = []
+    for h in try_node.handlers:
+        if h.type is None:
+            cls = 'BaseException'
+        elif isinstance(h.type, ast.Name):
+            cls = h.type.id
+        else:
+            raise ExtractError('%s: an except clause with something other than one class name' % where)
+        if cls not in ('Exception', 'BaseException'):
+            raise ExtractError('%s: except %s (only Exception / BaseException are modelled)' % (where, cls))
+        calls = _calls_in(h.body)
+        reraises = any(isinstance(st, ast.Raise) and st.exc is None for st in h.body)
+        rows.append((cls, bool(calls & {'_log_and_set_exception', 'set_exception'}), reraises, bool(calls & third)))
+    return rows
+
+
+def _try_containing(func, call_name, where):
+    for node in ast.walk(func):
+        if isinstance(node, ast.Try) and call_name in _calls_in(node.body):
+            return node
+    return None
+
+
+def gen_handlers():
+    """How exceptions travel through a manager whose tasks run in the caller's thread: the except
+    clauses of Task.__call__, NonThreadedExecutor.submit, BoundedExecutor.submit and SubmissionTask._main."""
+    def rows(xs):
+        return '[%s]' % ', '.join('(%s, %s, %s, %s)' % (lean_str(c), 'true' if a else 'false', 'true' if b else 'false',
+                                                         'true' if d else 'false') for c, a, b, d in xs)
+    out = [HEADER, 'namespace S3V.Gen\n']
+    # Task.__call__
+    call = module('tasks').func('Task', '__call__')
+    t = _try_containing(call, '_execute_main', 'tasks.Task.__call__')
+    if t is None:
+        raise ExtractError('tasks.Task.__call__: no try statement around _execute_main')
+    out.append('/-- `Task.__call__`: (class, records, re-raises, -) -/\n')
+    out.append('def taskHandlers : List (String × Bool × Bool × Bool) := %s\n' % rows(_handler_rows(t, 'tasks.Task.__call__', set())))
+    fin = _calls_in(t.finalbody)
+    runs_cbs = any(isinstance(n, ast.For) and isinstance(n.iter, ast.Attribute) and n.iter.attr == '_done_callbacks'
+                   for st in t.finalbody for n in ast.walk(st))
+    announces = any(isinstance(n, ast.If) and isinstance(n.test, ast.Attribute) and n.test.attr == '_is_final'
+                    and 'announce_done' in _calls_in(n.body) for st in t.finalbody for n in ast.walk(st))
+    skips = any(isinstance(n, ast.If) and isinstance(n.test, ast.UnaryOp) and isinstance(n.test.op, ast.Not)
+                and 'done' in _calls_in([ast.Expr(n.test.operand)]) and '_execute_main' in _calls_in(n.body)
+                for st in t.body for n in ast.walk(st))
+    out.append('def taskFinallyRunsDoneCallbacks : Bool := %s\n' % ('true' if runs_cbs else 'false'))
+    out.append('def taskFinallyAnnouncesIfFinal : Bool := %s\n' % ('true' if announces else 'false'))
+    out.append('def taskSkipsMainWhenDone : Bool := %s\n' % ('true' if skips else 'false'))
+    # NonThreadedExecutor.submit
+    sub = module('futures').func('NonThreadedExecutor', 'submit')
+    t = _try_containing(sub, 'fn', 'futures.NonThreadedExecutor.submit')
+    out.append('/-- `NonThreadedExecutor.submit`: (class, -, re-raises, stores it on the returned future) -/\n')
+    out.append('def serialExecutorHandlers : List (String × Bool × Bool × Bool) := %s\n' % rows(
+        _handler_rows(t, 'futures.NonThreadedExecutor.submit', {'set_exception_info', 'set_exception'}) if t is not None else []))
+    # BoundedExecutor.submit
+    bsub = module('futures').func('BoundedExecutor', 'submit')
+    t = None
+    for node in ast.walk(bsub):
+        if isinstance(node, ast.Try) and any(isinstance(n, ast.Attribute) and n.attr == '_executor' for st in node.body for n in ast.walk(st)):
+            t = node
+    out.append('/-- `BoundedExecutor.submit` around the underlying submit: (class, -, re-raises, gives the permit back) -/\n')
+    out.append('def boundedSubmitHandlers : List (String × Bool × Bool × Bool) := %s\n' % rows(
+        _handler_rows(t, 'futures.BoundedExecutor.submit', {'release_callback', 'release'}) if t is not None else []))
+    # SubmissionTask._main
+    main = module('tasks').func('SubmissionTask', '_main')
+    t = _try_containing(main, '_submit', 'tasks.SubmissionTask._main')
+    if t is None:
+        raise ExtractError('tasks.SubmissionTask._main: no try statement around _submit')
+    out.append('/-- `SubmissionTask._main`: (class, records, re-raises, waits for the submitted tasks and announces done) -/\n')
+    srows = []
+    for (c, a, b, _), h in zip(_handler_rows(t, 'tasks.SubmissionTask._main', set()), t.handlers):
+        calls = _calls_in(h.body)
+        srows.append((c, a, b, 'announce_done' in calls and '_wait_for_all_submitted_futures_to_complete' in calls))
+    out.append('def submissionHandlers : List (String × Bool × Bool × Bool) := %s\n' % rows(srows))
+    out.append('end S3V.Gen\n')
+    return ''.join(out)
+
+
+GENERATORS = {'Consts': gen_consts, 'ArgTables': gen_argtables, 'S3Shapes': gen_s3shapes, 'Wiring': gen_wiring,
+              'Handlers': gen_handlers}
 
 
 def extract_all():
